@@ -679,15 +679,15 @@ class PositionArray(PosBase):
                     attr_cls = a_attr.__class__
                     pos_args[attr_name] = attr_cls.insert(a_attr, pos, b_attr, memo)
                 elif a_attr is None:
-                    attr_cls = a_attr.__class__
-                    print("todo: check empty_from argument")
-                    empty_attr = attr_cls.empty_from(a)
+                    # a has no such attribute: NaN rows for the rows of a
+                    attr_cls = b_attr.__class__
+                    empty_attr = attr_cls(np.full((len(a), b_attr.shape[-1]), np.nan), ellipsoid=b_attr.ellipsoid)
                     pos_args[attr_name] = attr_cls.insert(empty_attr, pos, b_attr, memo)
                     memo.pop(id(empty_attr), None)
                 elif b_attr is None:
+                    # b has no such attribute: NaN rows for the rows of b
                     attr_cls = a_attr.__class__
-                    print("todo: check empty_from argument")
-                    empty_attr = attr_cls.empty_from(a)
+                    empty_attr = attr_cls(np.full((len(b), a_attr.shape[-1]), np.nan), ellipsoid=a_attr.ellipsoid)
                     pos_args[attr_name] = attr_cls.insert(a_attr, pos, empty_attr, memo)
                     memo.pop(id(empty_attr), None)
 
@@ -1536,7 +1536,8 @@ class PosVelArray(PositionArray):
             v_unit = self.trs.vel.unit_vector
             c_unit = nputil.unit_vector(np.cross(r_unit, v_unit))
             a_unit = nputil.unit_vector(np.cross(c_unit, r_unit))
-            self._cache["trs2acr"] = np.stack((a_unit, c_unit, r_unit), axis=1)
+            # the unit vectors are the rows of each matrix, for a single state (ndim 1) as well
+            self._cache["trs2acr"] = np.stack((a_unit, c_unit, r_unit), axis=-2)
         return self._cache["trs2acr"]
 
     @property
